@@ -79,7 +79,7 @@ var bb3bExempt = map[string]map[string]string{
 }
 
 func checkC01(ctx *Ctx, r *Report, tier string) {
-	r.Explain = "Every SDF constructor of package sdf is discovered, evaluated symbolically and composed with the BoundingBox and Evaluate methods of the object it builds. Decided per constructor: the box is set; it depends two-sidedly on every operand box it uses; it depends on a set of operands that covers the solid and on every extent-relevant parameter of the composed Evaluate; for the closed-form constructors every candidate of the exact extent (interval hull of the affine image, ±offset/round/half-thickness, lattice copies, twisted-profile radius, half heights ...) occurs in the box; the partial-revolution quadrant table is consistent. Containment for the numerically defined shapes (cone, cams, spirals, gears, text, meshes, voxel) and for obj parts is not decided beyond dependence."
+	r.Explain = "Every SDF constructor of package sdf is discovered, evaluated symbolically and composed with the BoundingBox and Evaluate methods of the object it builds. Decided per constructor: the box is set; it depends two-sidedly on every operand box it uses; it depends on a set of operands that covers the solid and on every extent-relevant parameter of the composed Evaluate; for the closed-form constructors every candidate of the exact extent (interval hull of the affine image, ±offset/round/half-thickness, lattice copies, twisted-profile radius, half heights ...) occurs in the box; the partial-revolution quadrant table is consistent. Containment for the numerically defined shapes (cone, cams, spirals, gears, text, meshes, voxel) and for obj parts is not decided beyond dependence. The unbounded gyroid is covered through Intersect3D's first-operand box; ScaleTwistExtrude3D's box is evaluated against the twisted-then-scaled extent; the loft's mix factor is clamped."
 	r.Trusted = []string{"go/types", "go/ssa", "sdfxlint compositional symbolic evaluator", "exact polynomial identity testing", "operand boxes enclose their operands (induction over expression trees)", "blend functions never add material outside the union of the operands' offsets"}
 	r.Assume = []string{"parameters are valid (constructors' own checks)", "operand boxes are ordered"}
 	var ctors []bbCtor
